@@ -332,6 +332,10 @@ class AssocDict(ModelObj):
         return [v for _, v in self.items]
 
     def do_update(self, I, other):
+        if isinstance(other, ModelObj) and not isinstance(other, AssocDict) and hasattr(other, "do_copy") and not self.items:
+            # {}.update(D) for a symbolic dict D: the (still empty) dict becomes a copy of D
+            I.rebind(self, other.do_copy(I))
+            return
         for k, v in I.dict_items(other):
             self.m_setitem(I, k, v)
 
